@@ -9,9 +9,10 @@
 * `filterValues`   `CompiledValueFilter.values` over `get_dir_infos`
 * `pySimpleGetitem`, `mixedSimpleGetitem`, `pyIterList`, `hasIter`, `compiledPyIter`, `pyBool`
                    `access.py` / `value.py` / `mixed.py` item access, iteration, truth value
+* `Slot`           what `lookup_special_method_static(obj, name)` finds along `type(obj).__mro__`
 
-Everything that comes from the source (type lists, guard expressions, code-shape flags) enters
-through `Cfg`; `Props/C13.lean` instantiates it with `JediModel.Gen.C13`. Core Lean only. -/
+Everything that comes from the source (type lists, guard expressions, lookup orders) enters
+through `Cfg`; `Model/ObjCfg.lean` instantiates it with `JediModel.Gen.C13`. Core Lean only. -/
 namespace JediModel.ObjModel
 
 /-! ## attribute entries -/
@@ -147,9 +148,9 @@ structure Cfg where
   getitemRefuses : Bool → Bool → Bool        -- py__simple_getitem__: (safe, type in allowed)
   iterListRefuses : Bool → Bool              -- py__iter__list: (type in allowed)
   mixedUsesCompiled : Bool → Bool            -- MixedObject.py__simple_getitem__: (type in allowed)
-  metaHitReportsGet : Bool                   -- getattr_static: metaclass hit reports its `__get__`
-  hasIterExecutes : Bool                     -- has_iter calls iter(obj)
-  boolExecutes : Bool                        -- py__bool__ calls bool(obj)
+  boolRefuses : Bool → Bool → Bool           -- py__bool__: (safe, _has_builtin_bool(obj))
+  boolLookupOrder : List String              -- _has_builtin_bool: names looked up on the type, in order
+  builtinMethodTypes : List String           -- _has_builtin_bool: `type(method) is <one of these>`
 
 /-- `_shadowed_dict(klass)`: first `__dict__` entry along the MRO that is not the class's own
 getset descriptor (`none` = `_sentinel`) -/
@@ -166,25 +167,30 @@ def instanceDictReadable (mro : List (List Entry)) : Bool :=
   | some e => e.tag.typeName == some "member_descriptor" || e.tag.typeName == some "getset_descriptor"
 
 /-- `getattr_static(obj, a)`: `none` = AttributeError, else `(attr, is_get_descriptor)`.
-Reads dictionaries only. -/
-def getattrStatic (cfg : Cfg) (t : Target) (a : String) : Option (Entry × Bool) :=
+Reads dictionaries only.  For types the metaclass is looked at too: a data descriptor found there
+has priority over an attribute of the class (as in `type.__getattribute__`), any other metaclass
+hit is the last resort; every metaclass hit reports whether it has `__get__`. -/
+def getattrStatic (t : Target) (a : String) : Option (Entry × Bool) :=
   let instR : Option Entry :=
     if t.isType then none
     else if instanceDictReadable t.mro then t.inst.bind (findIn · a) else none
+  let metaR : Option Entry := if t.isType then mroLookup t.metaMro a else none
   let klassR := mroLookup t.mro a
-  match instR, klassR with
-  | some i, some k => if k.tag.hasGet && k.tag.hasSet then some (k, true) else some (i, false)
-  | some i, none => some (i, false)
-  | none, some k => some (k, k.tag.hasGet)
-  | none, none =>
-    if t.isType then (mroLookup t.metaMro a).map fun m => (m, cfg.metaHitReportsGet && m.tag.hasGet)
-    else none
+  let rest : Option (Entry × Bool) :=
+    match instR, klassR with
+    | some i, some k => if k.tag.hasGet && k.tag.hasSet then some (k, true) else some (i, false)
+    | some i, none => some (i, false)
+    | none, some k => some (k, k.tag.hasGet)
+    | none, none => metaR.map fun m => (m, m.tag.hasGet)
+  match metaR, klassR with
+  | some m, some _ => if m.tag.hasGet && m.tag.hasSet then some (m, true) else rest
+  | _, _ => rest
 
 /-- `DirectObjectAccess.is_allowed_getattr(name, safe)` ↦ (has_attribute, is_descriptor, annotation present).
 `dynHas` = what `hasattr(obj, name)` answers when the static lookup fails (only `__getattr__` /
 `__getattribute__` can make it `true`). -/
 def isAllowedGetattr (cfg : Cfg) (t : Target) (a : String) (safe dynHas : Bool) : Bool × Bool × Bool :=
-  match getattrStatic cfg t a with
+  match getattrStatic t a with
   | none => if !safe then (dynHas, false, false) else (false, false, false)
   | some (e, isGet) =>
     if cfg.isDescriptorCond isGet (typeIn cfg.allowedDescr e.tag) then
@@ -240,14 +246,25 @@ def filterValues (cfg : Cfg) (infos : List DirInfo) (allowUnsafe isInstance : Bo
 
 /-! ## item access, iteration, truth value -/
 
-/-- which protocol methods of a user-defined class resolve to user-defined functions -/
+/-- what `lookup_special_method_static(obj, name)` (= `_check_class(type(obj), name)`,
+`_PyType_Lookup`) finds for a special method name: the raw entry of the first class `__dict__`
+along `type(obj).__mro__` that has the name -/
+inductive Slot where
+  | absent                  -- no class along the MRO has the name
+  | builtin (ty : String)   -- a builtin descriptor of type `ty` (`wrapper_descriptor`, ...): C code
+  | user                    -- a Python function: calling it runs user code
+  | noneVal                 -- the entry is `None` (`__iter__ = None`)
+  | other                   -- any other entry (generator function, property, ...)
+deriving DecidableEq, Repr
+
+/-- the special methods of a user-defined class (`type(obj)` is not a builtin type) -/
 structure UserType where
   id : Nat
-  getitem : Bool
-  iter : Bool
-  next : Bool
-  bool : Bool
-  len : Bool
+  getitem : Slot
+  iter : Slot
+  next : Slot
+  bool : Slot
+  len : Slot
 deriving DecidableEq, Repr
 
 /-- `type(obj)`, exactly (a subclass of `list` is a user type) -/
@@ -266,26 +283,26 @@ def tyIn (allowed : List String) : Ty → Bool
   | .builtin n => allowed.contains n
   | .user _ => false
 
+/-- calling the entry runs a user-defined function -/
+def Slot.runsUser : Slot → Bool
+  | .user => true
+  | _ => false
+
 /-- user code run by `obj[index]` -/
 def subscriptEvents : Ty → List Ev
-  | .user u => if u.getitem then [.getitem] else []
+  | .user u => if u.getitem.runsUser then [.getitem] else []
   | .builtin _ => []
 
-/-- user code run by `iter(obj)` -/
-def iterCallEvents : Ty → List Ev
-  | .user u => if u.iter then [.iter] else []
-  | .builtin _ => []
-
-/-- user code run by `for part in obj` (after `iter`): `__next__` of the iterator when the
-object is its own iterator, `__getitem__` for the sequence protocol -/
+/-- user code run by `for part in obj`: `__iter__`, `__next__` of the iterator when the object is
+its own iterator, `__getitem__` for the sequence protocol -/
 def loopEvents : Ty → List Ev
-  | .user u => (if u.iter then [.iter] else []) ++ (if u.next then [.next] else [])
-      ++ (if !u.iter && u.getitem then [.getitem] else [])
+  | .user u => (if u.iter.runsUser then [.iter] else []) ++ (if u.next.runsUser then [.next] else [])
+      ++ (if u.iter == .absent && u.getitem.runsUser then [.getitem] else [])
   | .builtin _ => []
 
-/-- user code run by `bool(obj)` -/
+/-- user code run by `bool(obj)`: `__bool__`, else `__len__` -/
 def boolCallEvents : Ty → List Ev
-  | .user u => if u.bool then [.bool] else if u.len then [.len] else []
+  | .user u => if u.bool.runsUser then [.bool] else if u.bool == .absent && u.len.runsUser then [.len] else []
   | .builtin _ => []
 
 /-- `DirectObjectAccess.py__simple_getitem__(index, safe=safe)`: reached? + user code run -/
@@ -300,34 +317,54 @@ def mixedSimpleGetitem (cfg : Cfg) (ty : Ty) (allowUnsafe : Bool) : Bool × List
   else (false, [])
 
 inductive IterOutcome where
-  | noIter        -- `None`: no `__iter__` attribute
+  | noIter        -- `None`: the type has no `__iter__` (or `__iter__ = None`)
   | annotation    -- `[return annotation of __iter__]`
   | refused       -- `[]`
   | items         -- the object was iterated
 deriving DecidableEq, Repr
 
-/-- `DirectObjectAccess.py__iter__list`; `iterAttr` = result of the `self._obj.__iter__` fetch -/
-def pyIterList (cfg : Cfg) (ty : Ty) (iterAttr : GetResult) (annotated : Bool) : IterOutcome × List Ev :=
-  let g := iterAttr.trace.map Ev.get
-  match iterAttr.found with
-  | none => (.noIter, g)
-  | some _ =>
-    if annotated then (.annotation, g)
-    else if cfg.iterListRefuses (tyIn cfg.allowedGetitem ty) then (.refused, g)
-    else (.items, g ++ loopEvents ty)
+/-- `DirectObjectAccess.py__iter__list`; `iter` = what the static lookup of `__iter__` on the
+type finds (default `None`); the entry is only asked for its return annotation, never called -/
+def pyIterList (cfg : Cfg) (ty : Ty) (iter : Slot) (annotated : Bool) : IterOutcome × List Ev :=
+  match iter with
+  | .absent => (.noIter, [])
+  | .noneVal => (.noIter, [])
+  | _ =>
+    if annotated then (.annotation, [])
+    else if cfg.iterListRefuses (tyIn cfg.allowedGetitem ty) then (.refused, [])
+    else (.items, loopEvents ty)
 
-/-- `DirectObjectAccess.has_iter`: `iter(obj)` looks `__iter__` up on the type (running the
-`__get__` of a descriptor stored under that name) and calls it -/
-def hasIter (cfg : Cfg) (ty : Ty) (iterAttr : GetResult) : List Ev :=
-  if cfg.hasIterExecutes then iterAttr.trace.map Ev.get ++ iterCallEvents ty else []
+/-- `DirectObjectAccess.has_iter`: two static lookups on the type, nothing is called.
+`__iter__` decides when present (`None` = declared not iterable), else the sequence protocol. -/
+def hasIter (iter getitem : Slot) : Bool :=
+  match iter with
+  | .absent => getitem != .absent
+  | .noneVal => false
+  | _ => true
 
-/-- `CompiledValue.py__iter__`: `has_iter()` then `py__iter__list()` -/
-def compiledPyIter (cfg : Cfg) (ty : Ty) (iterAttr : GetResult) (annotated : Bool) : List Ev :=
-  hasIter cfg ty iterAttr ++ (pyIterList cfg ty iterAttr annotated).2
+/-- `CompiledValue.py__iter__`: `has_iter()` (runs nothing) then `py__iter__list()` -/
+def compiledPyIter (cfg : Cfg) (ty : Ty) (iter : Slot) (annotated : Bool) : List Ev :=
+  (pyIterList cfg ty iter annotated).2
 
-/-- `DirectObjectAccess.py__bool__` -/
-def pyBool (cfg : Cfg) (ty : Ty) : List Ev :=
-  if cfg.boolExecutes then boolCallEvents ty else []
+/-- the special-method table of a type as far as `bool()` is concerned -/
+def Ty.slot (ty : Ty) (name : String) : Slot :=
+  match ty with
+  | .user u => if name == "__bool__" then u.bool else if name == "__len__" then u.len else .absent
+  | .builtin _ => .builtin "wrapper_descriptor"   -- builtin types: slot wrappers (or nothing)
+
+/-- `_has_builtin_bool(obj)`: the first name of the lookup order found on the type decides -/
+def hasBuiltinBool (cfg : Cfg) (ty : Ty) : Bool :=
+  match cfg.boolLookupOrder.find? (fun n => ty.slot n != .absent) with
+  | none => true
+  | some n =>
+    match ty.slot n with
+    | .builtin t => cfg.builtinMethodTypes.contains t
+    | _ => false
+
+/-- `DirectObjectAccess.py__bool__(safe=safe)`: `bool(obj)` reached? + user code run -/
+def pyBool (cfg : Cfg) (ty : Ty) (safe : Bool) : Bool × List Ev :=
+  if cfg.boolRefuses safe (hasBuiltinBool cfg ty) then (false, [])
+  else (true, boolCallEvents ty)
 
 /-- events that are calls of user-defined container / truth protocol methods -/
 def Ev.isProtocol : Ev → Bool
